@@ -12,6 +12,16 @@ def _cleanup(box):
     shutil.rmtree(box, ignore_errors=True)
 
 
+def _broken(chk, args, why):
+    """The machinery broke down.  Property violations observed on the real code BEFORE that stay what they are (a changed
+    tree may break a later stage of the check as well): they are reported and the check exits 1; otherwise exit 2."""
+    print(f'MACHINERY-ERROR property={args.pid}: {why}', file=sys.stderr)
+    if not args.replay and chk.violations:
+        chk.assume(f'the check did not complete (machinery error after the violations were observed): {why[:300]}')
+        return chk.finish()
+    return 2
+
+
 def main():
     ap = argparse.ArgumentParser()
     ap.add_argument('pid')
@@ -33,16 +43,12 @@ def main():
             mod.main(chk)
             rc = chk.finish()
     except tlc.MachineryError as exc:
-        print(f'MACHINERY-ERROR property={args.pid}: {exc}', file=sys.stderr)
-        _cleanup(box)
-        sys.exit(2)
+        rc = _broken(chk, args, str(exc))
     except SystemExit:
         raise
     except BaseException:  # pylint: disable=broad-except
         traceback.print_exc()
-        print(f'MACHINERY-ERROR property={args.pid}: driver crashed', file=sys.stderr)
-        _cleanup(box)
-        sys.exit(2)
+        rc = _broken(chk, args, 'driver crashed')
     sys.stdout.flush()
     sys.stderr.flush()
     os.chdir('/')
